@@ -30,9 +30,8 @@ PROPS = {
                  'read_terminates_bound takes their progress property as a Section hypothesis',
                  'Gen/Safety.v: isValidDelimiter of csv and csv2 (and whether validateFileDecl applies it), JSON-schema bounds, extracted on every run'],
         assumptions=['sig_ok: the first parameter of a registered custom function accepts *transformctx.Ctx (registration is caller code, outside the claim)',
-                     'guards of the known findings (KNOWN_FINDINGS.txt, property C03): int_plain, xd_no_null, tpl_small, groups_shallow, xpath_plain, js_export_total; '
+                     'guards of the known findings (KNOWN_FINDINGS.txt, property C03): int_plain, xd_no_null, tpl_small, groups_small, xpath_plain, js_export_total; '
                      'the main generators stay inside them, the recorded inputs are replayed from replays/corpus/C03 on every run',
                      'read bound: a finite input of n bytes reaches a terminal result within n+2 Reads (the constant the harness enforces)'],
-        harness_timeout=600,
     ),
 }
